@@ -136,6 +136,11 @@ struct Case {
     /// History run on the second incarnation (empty: the check ends with the first restart).
     ops2: Vec<Op>,
     plan: CutPlan,
+    /// Values are drawn from {1,2,3} instead of being unique (states of different items, and successive
+    /// states of one item, can then be byte-identical). The rules stay sound (they match the earliest
+    /// candidate) but are weaker; the quiescence rule does not need unique values.
+    #[serde(default)]
+    small_alphabet: bool,
 }
 
 #[derive(Clone, Copy, Debug, PartialEq, Eq, PartialOrd, Ord)]
@@ -171,6 +176,15 @@ enum G {
     /// reading in between. This is how a lane gets a sync request while its writer is busy and a newer
     /// state is waiting: the sync response then carries a state that has not been broadcast yet.
     Burst { r: u16, lane: u8, keys: Vec<i32>, other_syncer: Option<u16>, steps: Vec<(usize, usize)> },
+    /// Stop-vote window (forces inactive_timeout = 300 ms): a linked remote, quiet time `a`, traffic that
+    /// only the read task sees (a command for a missing lane) so that its timer fires later than those
+    /// of the write and HTTP tasks, time up to 300 ms + d (write and HTTP task vote), then a set on the
+    /// lane and a command that makes the agent stop itself, delivered together: the lane event reaches
+    /// the write task while its vote is outstanding and the read task's voter goes away with the agent.
+    Window { r: u16, lane: u8, k: i32, a: u64, d: u64, split: bool, sets: u8, steps: Vec<(usize, usize)> },
+    /// One handler sets the persistent value store and a persistent value lane (0 = v0, 1 = v1) to the
+    /// SAME value while a remote is linked to the lane: byte-identical states of two different items.
+    Twin { r: u16, lane: u8 },
 }
 
 fn arb_params() -> impl Strategy<Value = SimParams> {
@@ -220,6 +234,7 @@ fn arb_g() -> impl Strategy<Value = G> {
             proptest::collection::vec((1usize..3, prop_oneof![2 => Just(usize::MAX), 1 => 1usize..40]), 3..14),
         )
             .prop_map(|(r, lane, keys, other_syncer, steps)| G::Burst { r, lane, keys, other_syncer, steps }),
+        2 => (any::<u16>(), 0u8..2).prop_map(|(r, lane)| G::Twin { r, lane }),
         5 => (any::<u16>(), 0u8..6).prop_map(|(r, lane)| G::Link { r, lane }),
         3 => (any::<u16>(), 0u8..6).prop_map(|(r, lane)| G::Sync { r, lane }),
         1 => (any::<u16>(), 0u8..6).prop_map(|(r, lane)| G::Unlink { r, lane }),
@@ -246,6 +261,21 @@ fn arb_g() -> impl Strategy<Value = G> {
     ]
 }
 
+/// The stop-vote window is an optional epilogue of the first history (it ends with the agent stopping).
+fn arb_window() -> impl Strategy<Value = G> {
+    (
+        any::<u16>(),
+        prop_oneof![Just(0u8), Just(1), Just(3), Just(4)],
+        0i32..4,
+        20u64..280,
+        prop_oneof![Just(1u64), Just(50), Just(150)],
+        any::<bool>(),
+        1u8..3,
+        proptest::collection::vec((1usize..3, prop_oneof![2 => Just(usize::MAX), 1 => 1usize..40]), 2..8),
+    )
+        .prop_map(|(r, lane, k, a, d, split, sets, steps)| G::Window { r, lane, k, a, d, split, sets, steps })
+}
+
 fn arb_cutsel() -> impl Strategy<Value = CutSel> {
     prop_oneof![
         6 => (any::<u16>(), any::<bool>()).prop_map(|(i, after)| CutSel::StoreCall { i, after }),
@@ -270,18 +300,86 @@ fn map_cmd_body(map: u8, msg: MapMessage<i32, i64>) -> String {
     }
 }
 
-fn build_case(params: SimParams, cascade: bool, gs: Vec<G>, gs2: Vec<G>, plan: CutPlan) -> Case {
+fn build_case(mut params: SimParams, cascade: bool, gs: Vec<G>, gs2: Vec<G>, plan: CutPlan, small_alphabet: bool) -> Case {
     // unique values: a value identifies one position of an item's history
     let mut next = 1i64;
+    let vseed = params.seed;
     let mut fresh = || {
         let v = next;
         next += 1;
-        v
+        if small_alphabet {
+            // pseudo-random but a pure function of the generated case
+            let x = (vseed ^ (v as u64).wrapping_mul(0x9E3779B97F4A7C15)).wrapping_mul(0xD6E8FEB86659FD93);
+            1 + ((x >> 33) % 3) as i64
+        } else {
+            v
+        }
     };
+    if gs.iter().chain(gs2.iter()).any(|g| matches!(g, G::Window { .. })) {
+        params.inactive_timeout_ms = 300;
+        params.attachment_queue = params.attachment_queue.min(2);
+    }
     let mut programs: Vec<Vec<Act>> = vec![];
     let mut convert = |gs: Vec<G>, ops: &mut Vec<Op>| {
         for g in gs {
             let op = match g {
+                G::Twin { r, lane } => {
+                    let x = fresh();
+                    programs.push(vec![Act::SetS { store: 0, v: x }, Act::SetV { lane, v: x }]);
+                    ops.push(Op::Link { r, lane });
+                    ops.push(Op::Cmd { r, lane: CTL, body: (programs.len() - 1).to_string() });
+                    ops.push(Op::Pump { r, n: usize::MAX });
+                    ops.push(Op::Settle);
+                    continue;
+                }
+                G::Window { r, lane, k, a, d, split, sets, steps } => {
+                    let mut set_body = |fresh: &mut dyn FnMut() -> i64| {
+                        if lane < 3 {
+                            fresh().to_string()
+                        } else {
+                            map_cmd_body(lane - 3, MapMessage::Update { key: k, value: fresh() })
+                        }
+                    };
+                    ops.push(Op::Link { r, lane });
+                    ops.push(Op::Cmd { r, lane, body: set_body(&mut fresh) });
+                    ops.push(Op::Settle);
+                    ops.push(Op::Advance { ms: a });
+                    if split {
+                        // variant A: the agent changes the lane by itself (run_after) at about the
+                        // instant at which the last of the three inactivity timers fires
+                        let act = if lane < 3 {
+                            Act::SetV { lane, v: fresh() }
+                        } else {
+                            Act::Upd { map: lane - 3, k, v: fresh() }
+                        };
+                        let late = 298 + (d % 5) + sets as u64;
+                        programs.push(vec![Act::Later { ms: late, act: Box::new(act) }]);
+                        ops.push(Op::Cmd { r, lane: CTL, body: (programs.len() - 1).to_string() });
+                        ops.push(Op::Pump { r, n: usize::MAX });
+                        ops.push(Op::Settle);
+                        ops.push(Op::Advance { ms: 300 + (d % 7) });
+                    } else {
+                        // variant B: traffic that only the read task sees (lane 7 does not exist), the
+                        // write and HTTP tasks vote, then a set and a command that stops the agent
+                        ops.push(Op::Cmd { r, lane: 7, body: "0".to_string() });
+                        ops.push(Op::Pump { r, n: usize::MAX });
+                        ops.push(Op::Poll { k: 3 });
+                        ops.push(Op::Advance { ms: 300 - a + d });
+                        ops.push(Op::Poll { k: 4 });
+                        for _ in 0..sets {
+                            ops.push(Op::Cmd { r, lane, body: set_body(&mut fresh) });
+                        }
+                        programs.push(vec![Act::StopSelf]);
+                        ops.push(Op::Cmd { r, lane: CTL, body: (programs.len() - 1).to_string() });
+                        ops.push(Op::Pump { r, n: usize::MAX });
+                    }
+                    for (k, n) in steps {
+                        ops.push(Op::Poll { k });
+                        ops.push(Op::Read { r, n });
+                    }
+                    ops.push(Op::Settle);
+                    continue;
+                }
                 G::Burst { r, lane, keys, other_syncer, steps } => {
                     for k in keys {
                         let body = if lane < 3 {
@@ -343,7 +441,7 @@ fn build_case(params: SimParams, cascade: bool, gs: Vec<G>, gs2: Vec<G>, plan: C
         ops2.push(Op::Settle);
     }
     drop(convert);
-    Case { params, cascade, programs, ops, ops2, plan }
+    Case { params, cascade, programs, ops, ops2, plan, small_alphabet }
 }
 
 fn arb_case(max_ops: usize, ncuts: usize, all: bool) -> impl Strategy<Value = Case> {
@@ -356,8 +454,13 @@ fn arb_case(max_ops: usize, ncuts: usize, all: bool) -> impl Strategy<Value = Ca
         1 => Just(vec![]),
         1 => proptest::collection::vec(arb_g(), 1..(max_ops / 3).max(2)),
     ];
-    (arb_params(), any::<bool>(), proptest::collection::vec(arb_g(), 3..max_ops), second, plan)
-        .prop_map(|(params, cascade, gs, gs2, plan)| build_case(params, cascade, gs, gs2, plan))
+    let small = prop_oneof![3 => Just(false), 1 => Just(true)];
+    let window = prop_oneof![5 => Just(None), 1 => arb_window().prop_map(Some)];
+    (arb_params(), any::<bool>(), proptest::collection::vec(arb_g(), 3..max_ops), window, second, plan, small)
+        .prop_map(|(params, cascade, mut gs, window, gs2, plan, small)| {
+            gs.extend(window);
+            build_case(params, cascade, gs, gs2, plan, small)
+        })
 }
 
 // ---------------------------------------------------------------------------------------------
@@ -472,7 +575,7 @@ impl Runner {
     async fn apply(&mut self, op: &Op) {
         let nrem = self.sim.remotes.len();
         let ridx = |r: u16| pick_index(r, nrem);
-        let lane_name = |l: u8| LANES[(l as usize) % LANES.len()];
+        let lane_name = |l: u8| if l == 7 { "nolane" } else { LANES[(l as usize) % LANES.len()] };
         match op {
             Op::Attach { in_cap, out_cap } => {
                 self.sim.attach(*in_cap, *out_cap);
@@ -510,6 +613,8 @@ struct PhaseObs {
     trace: Vec<(u64, PEv)>,
     /// Number of store log entries when the incarnation was dropped.
     log_end: usize,
+    /// Some remote was told `AgentTimedOut` (the reason only the unanimous stop-vote paths set).
+    timed_out: bool,
 }
 
 struct RunObs {
@@ -528,11 +633,15 @@ struct RunObs {
 fn collect(sim: &mut Sim, shared: &Shared, data: &SharedData, crashed: bool) -> PhaseObs {
     let result = if crashed { None } else { sim.result.clone() };
     let remotes = sim.remotes.iter().map(|r| r.frames.clone()).collect();
+    let timed_out = sim
+        .remotes
+        .iter_mut()
+        .any(|r| matches!(r.disconnection_reason(), Some(Ok(reason)) if format!("{:?}", reason) == "AgentTimedOut"));
     // the system future (all tasks of the agent) is dropped here; the remotes go with the `Sim`
     sim.crash();
     let mut g = data.lock();
     g.fault = None;
-    PhaseObs { result, remotes, trace: shared.trace(), log_end: g.log.len() }
+    PhaseObs { result, remotes, trace: shared.trace(), log_end: g.log.len(), timed_out }
 }
 
 /// Start a further incarnation on the surviving store data: initialisation, then a new remote syncs
@@ -896,6 +1005,7 @@ fn judge(obs: &RunObs, v: &mut Verdict) -> RunStats {
     let mut persistent_event_frames = 0usize;
     let mut lost_tail = false;
     let mut sync_ahead = false;
+    let mut quiescent_published = false;
 
     for (pi, ph) in obs.phases.iter().enumerate() {
         let inc = pi + 1;
@@ -1223,6 +1333,40 @@ fn judge(obs: &RunObs, v: &mut Verdict) -> RunStats {
                 if pi == 0 && St::V(*hist.last().unwrap()) != expected_after {
                     lost_tail = true;
                 }
+                // ---- quiescence (does not need unique values): the incarnation ran to quiescence with
+                // the agent alive, and some remote read, after the lane's last change, an event carrying
+                // the lane's final value as its last event: the published final state must be the state
+                // the store holds (frames are delivered in order, so that frame is not older than the
+                // last change; whatever was handed over after it carries the same final value)
+                let quiescent = ph.result.is_none()
+                    && ((pi == 0 && obs.cut == Cut::End && obs.fired) || (pi == 1 && obs.phases.len() == 3))
+                    && !ph.trace.iter().any(|(_, e)| matches!(e, PEv::Did(Act::Fail) | PEv::Did(Act::StopSelf)));
+                let last_set = ph.trace.iter().rev().find_map(|(s, e)| match e {
+                    PEv::Value { lane, v } if *lane == it.trace_idx => Some((*s, *v)),
+                    _ => None,
+                });
+                if let (true, Some((set_seq, fin))) = (quiescent, last_set) {
+                    let published = ph.remotes.iter().any(|frames| {
+                        frames
+                            .iter()
+                            .rev()
+                            .find(|f| f.lane == it.name && matches!(f.kind, FrameKind::Event(_)))
+                            .map(|f| f.seq > set_seq && matches!(&f.kind, FrameKind::Event(b) if parse_i64(b) == Some(fin)))
+                            .unwrap_or(false)
+                    });
+                    if published {
+                        quiescent_published = true;
+                        if expected_after != St::V(fin) {
+                            v.fail(
+                                "quiescence:published-final-state-not-in-store:value-lane",
+                                format!(
+                                    "{} lane {}: at quiescence a remote had read the lane's final value {} (set at seq {}) but the store operations handed over imply {:?}; store operations of the lane in this incarnation: {:?}; history {:?}",
+                                    ctx, it.name, fin, set_seq, expected_after, show_entries(), hist
+                                ),
+                            );
+                        }
+                    }
+                }
                 let mut seen_max = 0usize;
                 for (ri, frames) in ph.remotes.iter().enumerate() {
                     // generator-distribution class: a sync response (the last event before a `synced`)
@@ -1309,6 +1453,9 @@ fn judge(obs: &RunObs, v: &mut Verdict) -> RunStats {
         .count();
     stats.nontrivial = store_ops_before_cut >= 1 && persistent_event_frames >= 1 && mutations >= 3;
     stats.classes.push(cut_class(obs));
+    if quiescent_published {
+        stats.classes.push("final-value-published-at-quiescence");
+    }
     if sync_ahead {
         stats.classes.push("value-sync-response-read-before-its-state-was-broadcast");
     }
@@ -1350,6 +1497,15 @@ fn judge(obs: &RunObs, v: &mut Verdict) -> RunStats {
     }
     if first.trace.iter().any(|(_, e)| matches!(e, PEv::Did(Act::StopSelf))) {
         stats.classes.push("handler-stopped-the-agent");
+        if first.timed_out && !matches!(obs.cut, Cut::Timeout) {
+            stats.classes.push("handler-stopped-the-agent-and-stop-vote-was-unanimous");
+        }
+    }
+    if first.timed_out {
+        stats.classes.push("remote-told-agent-timed-out");
+        if obs.cut != Cut::Timeout {
+            stats.classes.push("agent-timed-out-during-the-history");
+        }
     }
     if obs.phases.len() == 3 {
         stats.classes.push("second-history+third-incarnation");
@@ -1365,7 +1521,13 @@ fn check(case: &Case) -> Verdict {
     let mut bulk = Bulk::default();
     let mut classes: BTreeMap<&'static str, u64> = BTreeMap::new();
     let mut account = |obs: &RunObs, v: &mut Verdict, bulk: &mut Bulk| {
-        let st = judge(obs, v);
+        let mut st = judge(obs, v);
+        if case.small_alphabet {
+            st.classes.push("small-value-alphabet");
+        }
+        if case.params.inactive_timeout_ms == 300 {
+            st.classes.push("stop-vote-window");
+        }
         bulk.evaluations += 1;
         if st.nontrivial {
             bulk.distinct_nontrivial += 1;
